@@ -459,3 +459,433 @@ Proof.
   intros LP. unfold sc_cur, sc_phase, me, get_proc, upd_proc. cbn [wprocs set]. simpl.
   rewrite nth_upd_eq by exact LP. cbn. auto.
 Qed.
+
+(* ------------------------------------------------------------------ C15, the input side: a machine whose in-edge policy
+   is an index policy draws exactly one index per item when its worker slot is granted, records exactly that index, and
+   issues its retrieval request on exactly that in-edge (no other edge is touched) *)
+Lemma e_reserve_get_shape w e p : same_frame w (fst (e_reserve_get w e p)) /\ snd (e_reserve_get w e p) = length (evs (wk w)).
+Proof.
+  unfold e_reserve_get. destruct (w_event w) as [w1 ev] eqn:E1.
+  pose proof (store_op_frame w1 e (StoreB.Sync ev)) as F2. destruct (store_op w1 e (StoreB.Sync ev)) as [[w2 r2] t2]. cbn [fst] in F2.
+  pose proof (store_op_frame w2 e (StoreB.RGet p 0)) as F3. destruct (store_op w2 e (StoreB.RGet p 0)) as [[w3 r3] t3]. cbn [fst snd] in *.
+  assert (F1 : same_frame w w1 /\ ev = length (evs (wk w))) by (unfold w_event in E1; injection E1 as <- <-; repeat split).
+  destruct F1 as [F1 EV]. split; [|exact EV].
+  eapply same_frame_trans; [exact F1|]. eapply same_frame_trans; [exact F2|]. eapply same_frame_trans; [exact F3|].
+  apply w_succeed_all_frame.
+Qed.
+
+Lemma occupancy_shape w n add :
+  wlog (occupancy w n add) = wlog w /\ wprocs (occupancy w n add) = wprocs w /\ wedges (occupancy w n add) = wedges w /\
+  wk (occupancy w n add) = wk w /\ length (wnodes (occupancy w n add)) = length (wnodes w) /\
+  (forall A (f : node -> A),
+     (forall x a b c, f (x <| nocchist := a |> <| nnumw := b |> <| nocclast := c |>) = f x) ->
+     f (get_node (occupancy w n add) n) = f (get_node w n)).
+Proof.
+  unfold occupancy, upd_node. cbn [wlog wprocs wedges wk wnodes set]. simpl. repeat split; try apply upd_len.
+  intros A f Hf. unfold get_node. cbn [wnodes set]. simpl.
+  destruct (Nat.lt_ge_cases n (length (wnodes w))) as [L|L].
+  - rewrite nth_upd_eq by exact L. apply Hf.
+  - rewrite !nth_overflow; try (rewrite ?upd_len; exact L). reflexivity.
+Qed.
+
+Lemma get_proc_upd w p f : (p < length (wprocs w))%nat -> get_proc (upd_proc w p f) p = f (get_proc w p).
+Proof. intros L. unfold get_proc, upd_proc. cbn [wprocs set]. simpl. apply nth_upd_eq. exact L. Qed.
+Lemma upd_proc_len w p f : length (wprocs (upd_proc w p f)) = length (wprocs w).
+Proof. unfold upd_proc. cbn [wprocs set]. simpl. apply upd_len. Qed.
+Lemma get_proc_procs w w' p : wprocs w' = wprocs w -> get_proc w' p = get_proc w p.
+Proof. unfold get_proc. intros ->. reflexivity. Qed.
+
+Theorem machine_round_robin_pull w p :
+  let n := pown (me w p) in let nd := get_node w n in
+  ppc (me w p) = 2%nat -> ninsel nd = PRoundRobin -> nins nd <> [] ->
+  (n < length (wnodes w))%nat -> (p < length (wprocs w))%nat ->
+  let k := ninptr nd in let m := length (nins nd) in
+  let w' := fst (machine_block w p) in
+  ninptr (get_node w' n) = S k /\
+  wlog w' = wlog w ++ [LSel n false (k mod m)] /\
+  pix (me w' p) = (k mod m)%nat /\
+  ptks (me w' p) = [length (evs (wk w))] /\
+  ppc (me w' p) = 4%nat.
+Proof.
+  intros n nd PC SEL NE L LP k m. unfold machine_block. fold n. fold nd. rewrite PC, SEL.
+  destruct (occupancy_shape w n true) as (O1 & O2 & O3 & O4 & O5 & O6).
+  set (w1 := occupancy w n true) in *.
+  assert (G1a : ninsel (get_node w1 n) = PRoundRobin) by (rewrite (O6 _ ninsel) by reflexivity; exact SEL).
+  assert (G1b : ninptr (get_node w1 n) = k) by (rewrite (O6 _ ninptr) by reflexivity; reflexivity).
+  assert (G1c : nins (get_node w1 n) = nins nd) by (rewrite (O6 _ nins) by reflexivity; reflexivity).
+  clearbody w1.
+  unfold draw_sel. rewrite G1a, G1b, G1c. fold m.
+  assert (M : (0 < m)%nat) by (unfold m; destruct (nins nd); [congruence|simpl; lia]).
+  assert (IR : in_range (Z.of_nat k mod Z.of_nat m) m = true).
+  { unfold in_range. pose proof (Z.mod_pos_bound (Z.of_nat k) (Z.of_nat m)) as B.
+    apply andb_true_iff. split; [apply Z.leb_le|apply Z.ltb_lt]; lia. }
+  rewrite IR. cbn [negb].
+  assert (TN : Z.to_nat (Z.of_nat k mod Z.of_nat m) = (k mod m)%nat).
+  { rewrite <- Nat2Z.inj_mod. apply Nat2Z.id. }
+  rewrite TN.
+  set (w2 := upd_node w1 n (fun x => x <| ninptr ::= S |>)).
+  set (w3 := logw w2 (LSel n false (k mod m))).
+  destruct (e_reserve_get_shape w3 (nth (k mod m) (nins nd) 0%nat) p) as ((C1 & C2 & C3 & C4) & C5).
+  destruct (e_reserve_get w3 (nth (k mod m) (nins nd) 0%nat) p) as [w4 t] eqn:E4. cbn [fst snd] in *.
+  assert (LEN3 : length (wprocs w3) = length (wprocs w)) by (unfold w3, w2, logw, upd_node; cbn [wprocs set]; simpl; rewrite O2; reflexivity).
+  assert (K3 : wk w3 = wk w) by (unfold w3, w2, logw, upd_node; cbn [wk set]; simpl; exact O4).
+  split; [|split; [|split; [|split]]].
+  - rewrite (get_node_nodes w4 _ n) by reflexivity. rewrite (get_node_nodes w3 w4 n C1).
+    unfold w3, w2, get_node, logw, upd_node. cbn [wnodes set]. simpl.
+    rewrite nth_upd_eq by (rewrite O5; exact L). cbn [ninptr set]. simpl. f_equal. exact G1b.
+  - cbn [wlog setpc upd_proc set]. simpl. rewrite C2. unfold w3, w2, logw, upd_node. cbn [wlog set]. simpl. rewrite O1. reflexivity.
+  - unfold me, setpc. rewrite get_proc_upd by (rewrite upd_proc_len, C3, LEN3; exact LP).
+    rewrite get_proc_upd by (rewrite C3, LEN3; exact LP). reflexivity.
+  - unfold me, setpc. rewrite get_proc_upd by (rewrite upd_proc_len, C3, LEN3; exact LP).
+    rewrite get_proc_upd by (rewrite C3, LEN3; exact LP). cbn. rewrite C5, K3. reflexivity.
+  - unfold me, setpc. rewrite get_proc_upd by (rewrite upd_proc_len, C3, LEN3; exact LP). reflexivity.
+Qed.
+
+Theorem machine_constant_pull w p i :
+  let n := pown (me w p) in let nd := get_node w n in
+  ppc (me w p) = 2%nat -> ninsel nd = PConst i -> in_range i (length (nins nd)) = true ->
+  (n < length (wnodes w))%nat -> (p < length (wprocs w))%nat ->
+  let w' := fst (machine_block w p) in
+  ninptr (get_node w' n) = ninptr nd /\
+  wlog w' = wlog w ++ [LSel n false (Z.to_nat i)] /\
+  pix (me w' p) = Z.to_nat i /\
+  ptks (me w' p) = [length (evs (wk w))] /\
+  ppc (me w' p) = 4%nat.
+Proof.
+  intros n nd PC SEL IR L LP. unfold machine_block. fold n. fold nd. rewrite PC, SEL.
+  destruct (occupancy_shape w n true) as (O1 & O2 & O3 & O4 & O5 & O6).
+  set (w1 := occupancy w n true) in *.
+  assert (G1a : ninsel (get_node w1 n) = PConst i) by (rewrite (O6 _ ninsel) by reflexivity; exact SEL).
+  assert (G1b : ninptr (get_node w1 n) = ninptr nd) by (rewrite (O6 _ ninptr) by reflexivity; reflexivity).
+  clearbody w1.
+  unfold draw_sel. rewrite G1a. rewrite IR. cbn [negb].
+  set (w3 := logw w1 (LSel n false (Z.to_nat i))).
+  destruct (e_reserve_get_shape w3 (nth (Z.to_nat i) (nins nd) 0%nat) p) as ((C1 & C2 & C3 & C4) & C5).
+  destruct (e_reserve_get w3 (nth (Z.to_nat i) (nins nd) 0%nat) p) as [w4 t] eqn:E4. cbn [fst snd] in *.
+  assert (LEN3 : length (wprocs w3) = length (wprocs w)) by (unfold w3, logw; cbn [wprocs set]; simpl; rewrite O2; reflexivity).
+  assert (K3 : wk w3 = wk w) by (unfold w3, logw; cbn [wk set]; simpl; exact O4).
+  split; [|split; [|split; [|split]]].
+  - rewrite (get_node_nodes w4 _ n) by reflexivity. rewrite (get_node_nodes w3 w4 n C1).
+    rewrite (get_node_nodes w1 w3 n) by reflexivity. exact G1b.
+  - cbn [wlog setpc upd_proc set]. simpl. rewrite C2. unfold w3, logw. cbn [wlog set]. simpl. rewrite O1. reflexivity.
+  - unfold me, setpc. rewrite get_proc_upd by (rewrite upd_proc_len, C3, LEN3; exact LP).
+    rewrite get_proc_upd by (rewrite C3, LEN3; exact LP). reflexivity.
+  - unfold me, setpc. rewrite get_proc_upd by (rewrite upd_proc_len, C3, LEN3; exact LP).
+    rewrite get_proc_upd by (rewrite C3, LEN3; exact LP). cbn. rewrite C5, K3. reflexivity.
+  - unfold me, setpc. rewrite get_proc_upd by (rewrite upd_proc_len, C3, LEN3; exact LP). reflexivity.
+Qed.
+
+(* the other edges: a reservation request changes no edge but the one it is issued on *)
+Definition only_edge (e : nat) (w w' : world) : Prop := forall e', e' <> e -> get_edge w' e' = get_edge w e'.
+Lemma only_edge_refl e w : only_edge e w w. Proof. intros e' _. reflexivity. Qed.
+Lemma only_edge_trans e a b c : only_edge e a b -> only_edge e b c -> only_edge e a c.
+Proof. intros A B e' N. rewrite (B e' N). apply A. exact N. Qed.
+Lemma only_edge_edges e w w' : wedges w' = wedges w -> only_edge e w w'.
+Proof. intros H e' _. unfold get_edge. rewrite H. reflexivity. Qed.
+Lemma store_op_only w e o : only_edge e w (fst (fst (store_op w e o))).
+Proof.
+  unfold store_op. destruct (StoreB.step _ _) as [[s r] t]. cbn [fst]. intros e' N.
+  unfold get_edge, upd_edge. cbn [wedges set]. simpl. apply nth_upd_other. congruence.
+Qed.
+Lemma w_succeed_all_edges l : forall w, wedges (w_succeed_all w l) = wedges w.
+Proof.
+  unfold w_succeed_all. induction l as [|y l IH]; intros w; simpl; [reflexivity|].
+  rewrite IH. unfold w_succeed. destruct (succeed (wk w) y); [reflexivity|].
+  unfold crashw. destruct (wcrash w); reflexivity.
+Qed.
+Lemma e_reserve_get_only w e p : only_edge e w (fst (e_reserve_get w e p)).
+Proof.
+  unfold e_reserve_get. destruct (w_event w) as [w1 ev] eqn:E1.
+  pose proof (store_op_only w1 e (StoreB.Sync ev)) as F2. destruct (store_op w1 e (StoreB.Sync ev)) as [[w2 r2] t2]. cbn [fst] in F2.
+  pose proof (store_op_only w2 e (StoreB.RGet p 0)) as F3. destruct (store_op w2 e (StoreB.RGet p 0)) as [[w3 r3] t3]. cbn [fst snd] in *.
+  assert (F1 : only_edge e w w1) by (unfold w_event in E1; injection E1 as <- _; apply only_edge_edges; reflexivity).
+  eapply only_edge_trans; [exact F1|]. eapply only_edge_trans; [exact F2|]. eapply only_edge_trans; [exact F3|].
+  apply only_edge_edges. apply w_succeed_all_edges.
+Qed.
+Lemma e_reserve_put_only w e p : only_edge e w (fst (e_reserve_put w e p)).
+Proof.
+  unfold e_reserve_put. destruct (w_event w) as [w1 ev] eqn:E1.
+  pose proof (store_op_only w1 e (StoreB.Sync ev)) as F2. destruct (store_op w1 e (StoreB.Sync ev)) as [[w2 r2] t2]. cbn [fst] in F2.
+  pose proof (store_op_only w2 e (StoreB.RPut p 0)) as F3. destruct (store_op w2 e (StoreB.RPut p 0)) as [[w3 r3] t3]. cbn [fst snd] in *.
+  assert (F1 : only_edge e w w1) by (unfold w_event in E1; injection E1 as <- _; apply only_edge_edges; reflexivity).
+  eapply only_edge_trans; [exact F1|]. eapply only_edge_trans; [exact F2|]. eapply only_edge_trans; [exact F3|].
+  apply only_edge_edges. apply w_succeed_all_edges.
+Qed.
+
+Theorem machine_round_robin_pull_touches_one_edge w p :
+  let n := pown (me w p) in let nd := get_node w n in
+  ppc (me w p) = 2%nat -> ninsel nd = PRoundRobin -> nins nd <> [] ->
+  only_edge (nth (ninptr nd mod length (nins nd)) (nins nd) 0%nat) w (fst (machine_block w p)).
+Proof.
+  intros n nd PC SEL NE. unfold machine_block. fold n. fold nd. rewrite PC, SEL.
+  destruct (occupancy_shape w n true) as (O1 & O2 & O3 & O4 & O5 & O6).
+  set (w1 := occupancy w n true) in *.
+  assert (G1a : ninsel (get_node w1 n) = PRoundRobin) by (rewrite (O6 _ ninsel) by reflexivity; exact SEL).
+  assert (G1b : ninptr (get_node w1 n) = ninptr nd) by (rewrite (O6 _ ninptr) by reflexivity; reflexivity).
+  assert (G1c : nins (get_node w1 n) = nins nd) by (rewrite (O6 _ nins) by reflexivity; reflexivity).
+  clearbody w1.
+  unfold draw_sel. rewrite G1a, G1b, G1c.
+  set (k := ninptr nd). set (m := length (nins nd)).
+  assert (M : (0 < m)%nat) by (unfold m; destruct (nins nd); [congruence|simpl; lia]).
+  assert (IR : in_range (Z.of_nat k mod Z.of_nat m) m = true).
+  { unfold in_range. pose proof (Z.mod_pos_bound (Z.of_nat k) (Z.of_nat m)) as B.
+    apply andb_true_iff. split; [apply Z.leb_le|apply Z.ltb_lt]; lia. }
+  rewrite IR. cbn [negb].
+  assert (TN : Z.to_nat (Z.of_nat k mod Z.of_nat m) = (k mod m)%nat).
+  { rewrite <- Nat2Z.inj_mod. apply Nat2Z.id. }
+  rewrite TN.
+  set (w3 := logw (upd_node w1 n (fun x => x <| ninptr ::= S |>)) (LSel n false (k mod m))).
+  pose proof (e_reserve_get_only w3 (nth (k mod m) (nins nd) 0%nat) p) as C.
+  destruct (e_reserve_get w3 (nth (k mod m) (nins nd) 0%nat) p) as [w4 t] eqn:E4. cbn [fst] in *.
+  eapply only_edge_trans; [|eapply only_edge_trans; [exact C|apply only_edge_edges; reflexivity]].
+  apply only_edge_edges. unfold w3, logw, upd_node. cbn [wedges set]. simpl. exact O3.
+Qed.
+
+(* ------------------------------------------------------------------ C16: the combiner's pack step *)
+Definition keeps_pack (p : nat) (w w' : world) : Prop :=
+  witems w' = witems w /\ length (wprocs w') = length (wprocs w) /\
+  ptks (get_proc w' p) = ptks (get_proc w p) /\ plst (get_proc w' p) = plst (get_proc w p) /\
+  pit (get_proc w' p) = pit (get_proc w p) /\ pix (get_proc w' p) = pix (get_proc w p) /\
+  exists l, wlog w' = wlog w ++ l.
+Lemma keeps_pack_refl p w : keeps_pack p w w.
+Proof. repeat split. exists []. rewrite app_nil_r. reflexivity. Qed.
+Lemma keeps_pack_trans p a b c : keeps_pack p a b -> keeps_pack p b c -> keeps_pack p a c.
+Proof.
+  intros (A1 & A2 & A3 & A4 & A5 & A6 & l1 & A7) (B1 & B2 & B3 & B4 & B5 & B6 & l2 & B7).
+  repeat split; try congruence. exists (l1 ++ l2). rewrite B7, A7, app_assoc. reflexivity.
+Qed.
+Lemma keeps_pack_procs p w w' l : witems w' = witems w -> wprocs w' = wprocs w -> wlog w' = wlog w ++ l -> keeps_pack p w w'.
+Proof. intros A B C. unfold keeps_pack, get_proc. rewrite A, B. repeat split. exists l. exact C. Qed.
+Lemma keeps_pack_upd p w f :
+  (forall x, ptks (f x) = ptks x /\ plst (f x) = plst x /\ pit (f x) = pit x /\ pix (f x) = pix x) ->
+  keeps_pack p w (upd_proc w p f).
+Proof.
+  intros F. unfold keeps_pack. rewrite upd_proc_len. split; [reflexivity|]. split; [reflexivity|].
+  destruct (Nat.lt_ge_cases p (length (wprocs w))) as [L|L].
+  - rewrite get_proc_upd by exact L. destruct (F (get_proc w p)) as (F1 & F2 & F3 & F4).
+    repeat split; auto. exists []. rewrite app_nil_r. reflexivity.
+  - assert (E : get_proc (upd_proc w p f) p = get_proc w p).
+    { unfold get_proc, upd_proc. cbn [wprocs set]. simpl. rewrite !nth_overflow; auto. rewrite upd_len. exact L. }
+    rewrite E. repeat split. exists []. rewrite app_nil_r. reflexivity.
+Qed.
+
+Lemma combiner_loop_keeps w p n : keeps_pack p w (fst (combiner_loop w p n)).
+Proof.
+  unfold combiner_loop. destruct (ptks (me w p)) as [|t0 ts] eqn:ET.
+  - unfold draw_delay. cbv zeta.
+    set (d := stream_at (ndelays (get_node w n)) (ndptr (get_node w n))).
+    set (w1 := logw (upd_node w n (fun x => x <| ndptr ::= S |>)) (LDraw n 0 d)).
+    assert (K1 : keeps_pack p w w1) by (apply keeps_pack_procs with (l := [LDraw n 0 d]); reflexivity).
+    destruct (d <? 0).
+    { cbn [fst]. eapply keeps_pack_trans; [exact K1|]. apply keeps_pack_procs with (l := []); try rewrite app_nil_r;
+      unfold crashw; destruct (wcrash w1); reflexivity. }
+    set (w2 := upd_proc w1 p (fun x => x <| pdl := d |>)).
+    assert (K2 : keeps_pack p w1 w2) by (apply keeps_pack_upd; intros x; repeat split; reflexivity).
+    destruct (update_state_shape w2 n 2) as (U1 & U2 & U3 & U4 & _).
+    set (w3 := update_state w2 n 2) in *.
+    assert (K3 : keeps_pack p w2 w3) by (apply keeps_pack_procs with (l := []); try rewrite app_nil_r; assumption).
+    clearbody w3.
+    set (w4 := upd_proc w3 p (fun x => x <| pt0 := wnow w3 |>)).
+    assert (K4 : keeps_pack p w3 w4) by (apply keeps_pack_upd; intros x; repeat split; reflexivity).
+    assert (K5 : keeps_pack p w4 (fst (w_timeout w4 d))).
+    { unfold w_timeout. destruct (d <? 0).
+      - cbn [fst]. apply keeps_pack_procs with (l := []); try rewrite app_nil_r; unfold crashw; destruct (wcrash w4); reflexivity.
+      - destruct (timeout (wk w4) d) as [k e]. cbn [fst]. apply keeps_pack_procs with (l := []); try rewrite app_nil_r; reflexivity. }
+    destruct (w_timeout w4 d) as [w5 t]. cbn [fst] in *.
+    eapply keeps_pack_trans; [exact K1|]. eapply keeps_pack_trans; [exact K2|]. eapply keeps_pack_trans; [exact K3|].
+    eapply keeps_pack_trans; [exact K4|]. eapply keeps_pack_trans; [exact K5|].
+    unfold setpc. apply keeps_pack_upd. intros x; repeat split; reflexivity.
+  - destruct (any_triggered w (t0 :: ts)).
+    + cbn [fst]. unfold setpc. apply keeps_pack_upd. intros x; repeat split; reflexivity.
+    + unfold w_any_of. destruct (any_of (wk w) (t0 :: ts)) as [k c]. cbn [fst].
+      eapply keeps_pack_trans; [|unfold setpc; apply keeps_pack_upd; intros x; repeat split; reflexivity].
+      eapply keeps_pack_trans; [|apply keeps_pack_upd; intros x; repeat split; reflexivity].
+      apply keeps_pack_procs with (l := []); try rewrite app_nil_r; reflexivity.
+Qed.
+
+Lemma e_get_items w e p tok n : witems (fst (e_get w e p tok n)) = witems w /\ wprocs (fst (e_get w e p tok n)) = wprocs w.
+Proof.
+  unfold e_get. destruct (StoreB.step _ _) as [[s r] ts]. destruct r as [t| |it|er]; cbn [fst];
+    try (unfold out_err; try destruct er; unfold crashw; cbn [upd_edge]; try destruct (wcrash _); split; reflexivity).
+  unfold logw. cbn [witems wprocs set]. simpl.
+  destruct (w_succeed_all_frame ts (e_update_level (upd_edge w e (fun x => x <| est := s |>)) e)) as (_ & _ & A3 & A4).
+  rewrite A3, A4. unfold e_update_level, upd_edge. cbn [witems wprocs set]. simpl. split; reflexivity.
+Qed.
+
+(* the block that runs when one of the outstanding ingredient reservations has been granted: the item retrieved with the
+   first granted token goes into THE pallet this combiner is filling, at the end of its contents, and into no other item;
+   exactly that token leaves the outstanding list (with its in-edge index); the pack is recorded right after the retrieval *)
+Theorem combiner_packs_the_retrieved_item w p ti tok w1 i :
+  let pr := me w p in let n := pown pr in let nd := get_node w n in
+  ppc pr = 4%nat -> (p < length (wprocs w))%nat -> (pit pr < length (witems w))%nat ->
+  first_triggered w (ptks pr) = Some (ti, tok) ->
+  e_get w (nth (nth ti (plst pr) 0%nat) (nins nd) 0%nat) p tok n = (w1, Some i) ->
+  i_pallet (get_item w i) = false ->
+  let w' := fst (combiner_block w p) in
+  i_contents (get_item w' (pit pr)) = i_contents (get_item w (pit pr)) ++ [i] /\
+  (forall j, j <> pit pr -> get_item w' j = get_item w j) /\
+  ptks (me w' p) = remove_nth ti (ptks pr) /\ plst (me w' p) = remove_nth ti (plst pr) /\
+  pit (me w' p) = pit pr /\ pix (me w' p) = S (pix pr) /\
+  exists l, wlog w' = wlog w1 ++ LPack (wnow w1) n (pit pr) i :: l.
+Proof.
+  intros pr n nd PC LP LI FT EG NP. unfold combiner_block. fold pr. fold n. fold nd. rewrite PC, FT.
+  destruct (e_get_items w (nth (nth ti (plst pr) 0%nat) (nins nd) 0%nat) p tok n) as (I1 & I2).
+  rewrite EG in *. cbn [fst] in *.
+  assert (GI : forall j, get_item w1 j = get_item w j) by (intros j; unfold get_item; rewrite I1; reflexivity).
+  rewrite GI, NP.
+  set (w2 := upd_item w1 (pit pr) (fun y => y <| i_contents ::= fun l => l ++ [i] |>)).
+  set (w3 := logw w2 (LPack (wnow w2) n (pit pr) i)).
+  set (w4 := upd_proc w3 p (fun x => x <| ptks := remove_nth ti (ptks pr) |> <| plst := remove_nth ti (plst pr) |> <| pix := S (pix pr) |>)).
+  destruct (combiner_loop_keeps w4 p n) as (K1 & K2 & K3 & K4 & K5 & K6 & l & K7).
+  assert (LP4 : (p < length (wprocs w3))%nat) by (unfold w3, w2, logw, upd_item; cbn [wprocs set]; simpl; rewrite I2; exact LP).
+  assert (G4 : get_proc w4 p = (get_proc w3 p) <| ptks := remove_nth ti (ptks pr) |> <| plst := remove_nth ti (plst pr) |> <| pix := S (pix pr) |>)
+    by (unfold w4; apply get_proc_upd; exact LP4).
+  assert (G3 : get_proc w3 p = pr) by (unfold pr, me, get_proc, w3, w2, logw, upd_item; cbn [wprocs set]; simpl; rewrite I2; reflexivity).
+  rewrite G3 in G4.
+  assert (IT : witems w4 = upd (pit pr) (fun y => y <| i_contents ::= fun l => l ++ [i] |>) (witems w)).
+  { unfold w4, w3, w2, upd_proc, logw, upd_item. cbn [witems set]. simpl. rewrite I1. reflexivity. }
+  split; [|split; [|split; [|split; [|split; [|split]]]]].
+  - unfold get_item at 1. rewrite K1, IT. rewrite nth_upd_eq by exact LI. reflexivity.
+  - intros j N. unfold get_item. rewrite K1, IT. apply nth_upd_other. congruence.
+  - unfold me. rewrite K3, G4. reflexivity.
+  - unfold me. rewrite K4, G4. reflexivity.
+  - unfold me. rewrite K5, G4. reflexivity.
+  - unfold me. rewrite K6, G4. reflexivity.
+  - exists l. rewrite K7. unfold w4, w3, w2, upd_proc, logw, upd_item. cbn [wlog wnow set]. simpl.
+    rewrite <- app_assoc. reflexivity.
+Qed.
+
+(* ------------------------------------------------------------------ C09, index policies: the non-blocking machine worker
+   under ROUND_ROBIN draws its out-edge once, records it, and then either drops the item at once (no room on the drawn edge)
+   or hands it to a push process for exactly that edge *)
+Lemma set_thread_shape w n p b :
+  wedges (set_thread w n p b) = wedges w /\ witems (set_thread w n p b) = witems w /\ wlog (set_thread w n p b) = wlog w /\
+  wprocs (set_thread w n p b) = wprocs w /\ wk (set_thread w n p b) = wk w /\
+  ndisc (get_node (set_thread w n p b) n) = ndisc (get_node w n).
+Proof.
+  unfold set_thread. repeat split. rewrite (node_field_upd ndisc w n) by reflexivity. reflexivity.
+Qed.
+
+Lemma update_state_rep_nodes_len w n : length (wnodes (update_state_rep w n)) = length (wnodes w).
+Proof.
+  unfold update_state_rep. destruct (nlast (get_node w n)).
+  - destruct (nsrep (get_node w n)) as [a b]. destruct (count_threads (get_node w n)) as [c d].
+    destruct (_ >? _); [unfold crashw; match goal with |- context [wcrash ?x] => destruct (wcrash x) end|];
+      unfold upd_node; cbn [wnodes set]; simpl; apply upd_len.
+  - unfold upd_node; cbn [wnodes set]; simpl; apply upd_len.
+Qed.
+
+(* a non-blocking machine worker under ROUND_ROBIN whose drawn out-edge has no room: one draw, recorded; the item is dropped
+   in that very block: one discard counted and logged for exactly this item, no edge touched *)
+Theorem worker_nonblocking_round_robin_drops w p :
+  let n := pown (me w p) in let nd := get_node w n in
+  ppc (me w p) = 1%nat -> noutsel nd = PRoundRobin -> nblocking nd = false -> nouts nd <> [] ->
+  (n < length (wnodes w))%nat ->
+  let k := noutptr nd in let m := length (nouts nd) in
+  e_can_put w (nth (k mod m) (nouts nd) 0%nat) = false ->
+  let w' := fst (worker_block w p) in
+  edges_untouched w w' /\
+  wlog w' = wlog w ++ [LSel n true (k mod m); LDiscard (wnow w) n (pit (me w p))] /\
+  ndisc (get_node w' n) = S (ndisc nd).
+Proof.
+  intros n nd PC SEL NB NE L k m CP. unfold worker_block. fold n. fold nd. rewrite PC, SEL.
+  set (w1 := upd_node w n (fun x => x <| nsumproc ::= fun v => v + (wnow w - pt0 (me w p)) |>)).
+  assert (G1 : get_node w1 n = nd <| nsumproc ::= fun v => v + (wnow w - pt0 (me w p)) |>).
+  { unfold w1, nd, get_node, upd_node. cbn [wnodes set]. simpl. apply nth_upd_eq. exact L. }
+  unfold draw_sel. rewrite G1. cbn [noutsel noutptr nouts set]. simpl. rewrite SEL. fold k. fold m.
+  assert (M : (0 < m)%nat) by (unfold m; destruct (nouts nd); [congruence|simpl; lia]).
+  assert (IR : in_range (Z.of_nat k mod Z.of_nat m) m = true).
+  { unfold in_range. pose proof (Z.mod_pos_bound (Z.of_nat k) (Z.of_nat m)) as B.
+    apply andb_true_iff. split; [apply Z.leb_le|apply Z.ltb_lt]; lia. }
+  rewrite IR. cbn [negb]. rewrite NB.
+  assert (TN : Z.to_nat (Z.of_nat k mod Z.of_nat m) = (k mod m)%nat).
+  { rewrite <- Nat2Z.inj_mod. apply Nat2Z.id. }
+  rewrite TN.
+  set (w2 := upd_node w1 n (fun x => x <| noutptr ::= S |>)).
+  set (w3 := logw w2 (LSel n true (k mod m))).
+  destruct (set_thread_shape w3 n p true) as (T1 & T2 & T3 & T4 & T5 & T6).
+  set (w4 := set_thread w3 n p true) in *.
+  destruct (update_state_rep_shape w4 n) as (B1 & B2 & B3 & B4 & B5).
+  assert (K5 : wk (update_state_rep w4 n) = wk w4).
+  { unfold update_state_rep. destruct (nlast (get_node w4 n)); [|reflexivity].
+    destruct (nsrep (get_node w4 n)) as [a b]. destruct (count_threads (get_node w4 n)) as [c d].
+    destruct (_ >? _); [unfold crashw; match goal with |- context [wcrash ?x] => destruct (wcrash x) end|]; reflexivity. }
+  set (w5 := update_state_rep w4 n) in *.
+  assert (E5 : wedges w5 = wedges w) by (rewrite B1, T1; reflexivity).
+  rewrite (e_can_put_edges w w5 _ E5), CP.
+  assert (N5 : wnow w5 = wnow w) by (unfold wnow; rewrite K5, T5; reflexivity).
+  match goal with |- context [worker_release ?a ?b ?c] => destruct (worker_release_shape a b c) as (A & B & C & D & _) end.
+  assert (D3 : ndisc (get_node w3 n) = ndisc nd).
+  { rewrite (get_node_nodes w2 w3 n) by reflexivity. unfold w2. rewrite (node_field_upd ndisc w1 n) by reflexivity.
+    rewrite G1. reflexivity. }
+  assert (LN5 : (n < length (wnodes w5))%nat).
+  { unfold w5. rewrite update_state_rep_nodes_len. unfold w4, set_thread, w3, w2, w1, logw, upd_node. cbn [wnodes set]. simpl.
+    rewrite !upd_len. exact L. }
+  repeat split.
+  - rewrite A. cbn [wedges logw upd_node set]. simpl. exact E5.
+  - rewrite B. cbn [witems logw upd_node set]. simpl. rewrite B2, T2. reflexivity.
+  - rewrite C. cbn [wlog logw upd_node set]. simpl. rewrite B3, T3. unfold w3, w2, w1, logw, upd_node. cbn [wlog set]. simpl.
+    rewrite <- app_assoc. simpl. rewrite N5. reflexivity.
+  - rewrite D. rewrite (get_node_nodes (upd_node w5 n (fun x => x <| ndisc ::= S |>)) _ n) by reflexivity.
+    unfold get_node at 1. unfold upd_node. cbn [wnodes set]. simpl.
+    rewrite nth_upd_eq by exact LN5. cbn. fold (get_node w5 n). rewrite B5, T6, D3. reflexivity.
+Qed.
+
+Local Opaque spawn.
+(* ... and when the drawn out-edge has room: nothing is dropped, no edge is touched by this block, and a push process for
+   exactly this item and exactly the drawn out-edge is started *)
+Theorem worker_nonblocking_round_robin_pushes w p :
+  let n := pown (me w p) in let nd := get_node w n in
+  ppc (me w p) = 1%nat -> noutsel nd = PRoundRobin -> nblocking nd = false -> nouts nd <> [] ->
+  (n < length (wnodes w))%nat -> (p < length (wprocs w))%nat ->
+  let k := noutptr nd in let m := length (nouts nd) in
+  e_can_put w (nth (k mod m) (nouts nd) 0%nat) = true ->
+  let w' := fst (worker_block w p) in
+  edges_untouched w w' /\ wlog w' = wlog w ++ [LSel n true (k mod m)] /\ ndisc (get_node w' n) = ndisc nd /\
+  length (wprocs w') = S (length (wprocs w)) /\
+  let q := nth (length (wprocs w)) (wprocs w') proc0 in
+  pkd q = KPush /\ pown q = n /\ pit q = pit (me w p) /\ pix q = nth (k mod m) (nouts nd) 0%nat /\ ppc q = 0%nat /\ palive q = true.
+Proof.
+  intros n nd PC SEL NB NE L LP k m CP. unfold worker_block. fold n. fold nd. rewrite PC, SEL.
+  set (w1 := upd_node w n (fun x => x <| nsumproc ::= fun v => v + (wnow w - pt0 (me w p)) |>)).
+  assert (G1 : get_node w1 n = nd <| nsumproc ::= fun v => v + (wnow w - pt0 (me w p)) |>).
+  { unfold w1, nd, get_node, upd_node. cbn [wnodes set]. simpl. apply nth_upd_eq. exact L. }
+  unfold draw_sel. rewrite G1. cbn [noutsel noutptr nouts set]. simpl. rewrite SEL. fold k. fold m.
+  assert (M : (0 < m)%nat) by (unfold m; destruct (nouts nd); [congruence|simpl; lia]).
+  assert (IR : in_range (Z.of_nat k mod Z.of_nat m) m = true).
+  { unfold in_range. pose proof (Z.mod_pos_bound (Z.of_nat k) (Z.of_nat m)) as B.
+    apply andb_true_iff. split; [apply Z.leb_le|apply Z.ltb_lt]; lia. }
+  rewrite IR. cbn [negb]. rewrite NB.
+  assert (TN : Z.to_nat (Z.of_nat k mod Z.of_nat m) = (k mod m)%nat).
+  { rewrite <- Nat2Z.inj_mod. apply Nat2Z.id. }
+  rewrite TN.
+  set (w2 := upd_node w1 n (fun x => x <| noutptr ::= S |>)).
+  set (w3 := logw w2 (LSel n true (k mod m))).
+  destruct (set_thread_shape w3 n p true) as (T1 & T2 & T3 & T4 & T5 & T6).
+  set (w4 := set_thread w3 n p true) in *.
+  destruct (update_state_rep_shape w4 n) as (B1 & B2 & B3 & B4 & B5).
+  set (w5 := update_state_rep w4 n) in *.
+  assert (E5 : wedges w5 = wedges w) by (rewrite B1, T1; reflexivity).
+  rewrite (e_can_put_edges w w5 _ E5), CP. unfold spawn_push.
+  set (w6 := upd_proc w5 p (fun x => x <| pt1 := wnow w5 |>)).
+  match goal with |- context [spawn ?a ?b] => pose proof (spawn_shape a b) as SS; destruct (spawn a b) as [[w7 pid] dn] end.
+  destruct SS as (S1 & S2 & S3 & S4 & S5 & dn' & S6). cbn [fst].
+  assert (D3 : ndisc (get_node w3 n) = ndisc nd).
+  { rewrite (get_node_nodes w2 w3 n) by reflexivity. unfold w2. rewrite (node_field_upd ndisc w1 n) by reflexivity.
+    rewrite G1. reflexivity. }
+  assert (LEN : length (wprocs w6) = length (wprocs w)).
+  { unfold w6. rewrite upd_proc_len, B4, T4. reflexivity. }
+  split; [split|].
+  - cbn [wedges setpc upd_proc set]. simpl. rewrite S1. exact E5.
+  - cbn [witems setpc upd_proc set]. simpl. rewrite S2. unfold w6. cbn [witems upd_proc set]. simpl. rewrite B2, T2. reflexivity.
+  - split; [cbn [wlog setpc upd_proc set]; simpl; rewrite S3; unfold w6; cbn [wlog upd_proc set]; simpl; rewrite B3, T3; reflexivity|].
+    split.
+    { rewrite (get_node_nodes w7 (setpc w7 p 6) n) by reflexivity. rewrite (get_node_nodes w6 w7 n S4).
+      rewrite (get_node_nodes w5 w6 n) by reflexivity. rewrite B5, T6. exact D3. }
+    cbn [wprocs setpc upd_proc set]. simpl. rewrite S6. rewrite upd_len, app_length, LEN. simpl.
+    split; [lia|].
+    assert (NEp : p <> length (wprocs w)) by lia.
+    rewrite nth_upd_other by exact NEp. assert (LEN' : length (upd p (fun x : proc => x <| pt1 := wnow w5 |>) (wprocs w5)) = length (wprocs w)) by (exact LEN).
+    rewrite app_nth2 by (rewrite LEN'; lia). rewrite LEN', Nat.sub_diag. cbn. repeat split; reflexivity.
+Qed.
+Local Transparent spawn.
